@@ -329,6 +329,67 @@ def random_case(seed_n, big):
     return gen_random(random.Random(C.seed() * 104729 + seed_n), big)
 
 
+def gen_churn(rng):
+    """a long history, as windows under a group_by produce it: many indices are created,
+    a long run of low indices is deleted while higher ones stay live, then low indices
+    come back; what the live ones hold must not move"""
+    dtn = rng.choice(DTS)
+    data_type = data_type_of(dtn)
+    default = {'int': 0, 'uint': 0, 'float': 0.0, 'bool': False, 'obj': None, 'mapper': None}[dtn] \
+        if rng.random() < 0.5 else None
+    n = rng.randint(70, 150)
+
+    def key(i):
+        return (i, (0,))
+
+    def write(i, gen):
+        if dtn == 'mapper':
+            return {'op': 'add_map', 'key': key(i), 'mk': 'k%d' % ((i + gen) % 5)}
+        v = {'int': i * 3 + gen, 'uint': i * 3 + gen, 'float': i + gen / 4, 'bool': (i + gen) % 2 == 0,
+             'obj': ('v', i, gen)}[dtn]
+        return {'op': 'set', 'key': key(i), 'value': v}
+
+    def read(i):
+        if dtn == 'mapper':
+            return [{'op': 'iterate_map', 'key': key(i)}, {'op': 'get_map', 'key': key(i), 'mk': 'k%d' % (i % 5)}]
+        return [{'op': 'get', 'key': key(i)}, {'op': 'is_set', 'key': key(i)}]
+    calls = []
+    order = list(range(n))
+    if rng.random() < 0.3:
+        order.reverse()
+    for i in order:
+        calls.append({'op': 'add_key', 'key': key(i)})
+        if rng.random() < 0.8:
+            calls.append(write(i, 0))
+    m = rng.randint(64, n - 2)
+    dead = list(range(m))
+    if rng.random() < 0.5:
+        rng.shuffle(dead)
+    for i in dead:
+        calls.append({'op': 'del_key', 'key': key(i)})
+    live = list(range(m, n))
+    for i in rng.sample(live, min(len(live), 4)):
+        calls += read(i)
+    for g in range(1, rng.randint(2, 6)):
+        j = rng.choice([0, 1, rng.randrange(m), m - 1])
+        calls.append({'op': 'add_key', 'key': key(j)})
+        calls += read(j)
+        calls.append(write(j, g))
+        calls += read(j)
+        for i in rng.sample(live, min(len(live), 3)) + [live[0], live[-1]]:
+            calls += read(i)
+        calls.append({'op': 'iterate'})
+        if rng.random() < 0.5:
+            calls.append({'op': 'is_cleared', 'key': key(rng.randrange(n))})
+        if rng.random() < 0.5:
+            calls.append({'op': 'del_key', 'key': key(j)})
+    return dtn, data_type, default, calls
+
+
+def churn_case(seed_n):
+    return gen_churn(random.Random(C.seed() * 7919 + seed_n))
+
+
 # ---------------------------------------------------------------- real pipelines
 
 def pipelines():
@@ -450,6 +511,13 @@ def make_trace(gen):
         tr = run(dtn, data_type_of(dtn), default, calls)
     elif kind == 'random':
         dtn, data_type, default, calls = random_case(gen['n'], gen['big'])
+        run = run_direct if gen['via'] == 'direct' else run_manager
+        tr = run(dtn, data_type, default, calls)
+        tr['py_calls'] = [repr(c) for c in calls]
+        tr['data_type'] = repr(data_type)
+        tr['default'] = repr(default)
+    elif kind == 'churn':
+        dtn, data_type, default, calls = churn_case(gen['n'])
         run = run_direct if gen['via'] == 'direct' else run_manager
         tr = run(dtn, data_type, default, calls)
         tr['py_calls'] = [repr(c) for c in calls]
@@ -599,6 +667,9 @@ def main(tier, replay):
     for n_r in range(nrand):
         traces.append(make_trace({'kind': 'random', 'via': 'direct' if n_r % 2 else 'manager',
                                   'n': n_r, 'big': n_r % 3 != 0}))
+    for n_c in range(60 if thorough else 12):
+        traces.append(make_trace({'kind': 'churn', 'via': 'direct' if n_c % 2 else 'manager', 'n': n_c}))
+        nrand += 1
     n_random = nrand
     pipe_info = []
     for name, build in pipelines():
